@@ -183,6 +183,24 @@ pub fn all() -> Vec<Scenario> {
             ],
         },
         Scenario {
+            name: "D12-aborted-renamed-upstream-of-skipped-consumer",
+            about: "C09/C11: e gained an output (new id) and ran while its consumer o was upstream-failed; next evaluation o is validated and skipped, then the run is aborted before e (delayed for its other consumer q) is decided: o's record of what it consumed from e must survive under the new id, or the resume rebuilds o",
+            conv: Conv::Prod,
+            nodes: vec![
+                ("e", Ephemeral, vec!["e"], vec![], 1000),
+                ("y", Output, vec!["y"], vec![], 1000),
+                ("k", Output, vec!["k"], vec![], 1000),
+                ("o", Output, vec!["o"], vec!["e", "y"], 1000),
+                ("q", Output, vec!["q"], vec!["e", "k"], 1000),
+            ],
+            steps: vec![
+                step(),
+                Step { edits: vec![Ed::SetOuts("e", vec!["e", "eb"]), Ed::Delete("y")], fail: vec!["y"], ..step() },
+                Step { edits: vec![Ed::Delete("k")], abort_at: Some(2), ..step() },
+                step(),
+            ],
+        },
+        Scenario {
             name: "shielding-and-reexecution",
             about: "C04: colliding outputs shield downstreams; on-demand ephemeral for an invalidated consumer",
             conv: Conv::Plain,
